@@ -896,26 +896,27 @@ def _bookkeeping(c: Ctx, r: RuleResult, f: Func) -> None:
                 work.append((u, "link_open", set()))
                 work.append((u, "link_close", set()))
                 continue
-            guard = f.module.parents.get(u)
-            while guard is not None and not isinstance(guard, ast.If):
-                guard = f.module.parents.get(guard)
-            if guard is None:
-                ok = False
-                continue
-            lits = [x.value for x in ast.walk(guard.test) if isinstance(x, ast.Constant) and x.value in ("link_open", "link_close")]
-            if len(lits) != 1:
-                ok = False
-                continue
-            gt = {id(x) for x in ast.walk(guard.test)}
-            # enclosing tests that look only at the token itself (`elif token.info == "auto":` around the two updates) belong to
-            # the guard as well; a test that mentions anything else (the counter, another variable) does not
-            anc = f.module.parents.get(guard)
+            # the guard: the enclosing `if`s (innermost first) whose tests look only at the token itself - `if token.type ==
+            # "link_open" and token.info == "auto":`, or the two tests nested either way round; a test that mentions anything
+            # else (the counter, another variable, a call) ends the chain
+            gt: set[int] = set()
+            lits: list[str] = []
+            anc = f.module.parents.get(u)
+            child: ast.AST = u
             while anc is not None and anc is not loop:
-                if isinstance(anc, ast.If) and any(x is u for b_ in anc.body for x in ast.walk(b_)):
+                if isinstance(anc, ast.If) and any(x is child for x in anc.body):
                     names_ = {x.id for x in ast.walk(anc.test) if isinstance(x, ast.Name)}
                     if names_ <= {tok} and not any(isinstance(x, ast.Call) for x in ast.walk(anc.test)):
                         gt |= {id(x) for x in ast.walk(anc.test)}
-                anc = f.module.parents.get(anc)
+                        lits += [x.value for x in ast.walk(anc.test) if isinstance(x, ast.Constant) and x.value in ("link_open", "link_close")]
+                    else:
+                        break
+                elif isinstance(anc, ast.If):
+                    pass          # u sits in the else-chain of this `if`: its test is specialised by the walk below
+                child, anc = anc, f.module.parents.get(anc)
+            if len(lits) != 1:
+                ok = False
+                continue
             work.append((u, lits[0], gt))
         for (u, L, guard_tests) in work:
             kinds_seen.append(L)
